@@ -487,7 +487,7 @@ commit has returned, the parent cache agrees with the backend on every key it ho
 private cache with its transaction (`cache_layer_transparent` at micro-step granularity). What it rests on: a
 reader between the underlying commit and the eviction of `k` can only re-insert the NEW value or a value that the
 pending eviction of `k` still removes (`StaleOnly` in `Obao/Proofs/CacheTxn.lean`). -/
-theorem cache_commit_window_coherent (s0 : Store) (ms : List MEvent) :
+theorem cache_commit_window_coherent_atomic_reader (s0 : Store) (ms : List MEvent) :
     ParentCoherent ((CSys.init s0).runM ms) ∧ TxnCoherent ((CSys.init s0).runM ms) := by
   have := inv_runM (CSys.init s0) ms (inv_init s0)
   exact ⟨this.1, this.2.1⟩
@@ -519,6 +519,52 @@ theorem cache_commit_reversed_order_cex :
   intro h
   have := h "a" (some "01") (by decide)
   exact absurd this (by decide)
+
+/-- **The commit window at lock granularity.** Readers are no longer atomic: `cache.Get(k)` is acquire the read
+lock of `k`'s stripe · LRU lookup · (miss) backend read · `lru.Add` · release, and the commit's eviction of each
+modified key is acquire the stripe's WRITE lock (blocked while a reader holds it) · `lru.Remove` · release, after
+the underlying commit. For EVERY assignment of keys to lock stripes, every number of concurrent readers, every
+interleaving of their micro-steps with the commit's, any number of such windows inside any schedule of ordinary
+events: the parent cache agrees with the backend on every key it holds (and every open transaction's private
+cache with its transaction). A window left early is closed by letting `Commit` run to its end and abandoning the
+readers that have not returned; `cache_commit_window_quiescent` is the statement for windows in which everything
+returned. What it rests on: a reader that fetched a pre-commit value holds the read lock until it has added it,
+so the eviction of that key — which needs the write lock — comes AFTER the add (`MInv`). -/
+theorem cache_commit_window_coherent (stripe : Key → Nat) (s0 : Store) (ls : List LEvent) :
+    ParentCoherent (CSys.runL stripe (CSys.init s0) ls) ∧ TxnCoherent (CSys.runL stripe (CSys.init s0) ls) := by
+  have := inv_runL stripe (CSys.init s0) ls (inv_init s0)
+  exact ⟨this.1, this.2.1⟩
+
+/-- … for every schedule after which `Commit` has returned and all readers have returned: the parent cache agrees
+with the backend on every key (nothing had to be finished or abandoned). -/
+theorem cache_commit_window_quiescent (stripe : Key → Nat) (s0 : Store) (es : List Event) (id : Nat) (m : MWin)
+    (sched : List MStep) (hm : MWin.start ((CSys.init s0).run es) id true = some m)
+    (hq : (m.run stripe sched).quiescent = true) :
+    ParentCoherent (m.run stripe sched).w.sys ∧ TxnCoherent (m.run stripe sched).w.sys ∧
+    (m.run stripe sched).w.finish = (m.run stripe sched).w := by
+  have h1 := (minv_run stripe m sched (minv_start stripe _ id m (inv_run _ es (inv_init s0)) hm)).1
+  have hd : (m.run stripe sched).w.phase = .done := by
+    unfold MWin.quiescent at hq
+    simp only [Bool.and_eq_true, beq_iff_eq] at hq
+    exact hq.1.1
+  have := inv_of_winInv_done _ h1 hd
+  exact ⟨this.1, this.2.1, quiescent_finish _ hq⟩
+
+/-- **What the theorem rests on (model variant, not the code): the lock.** With a lock-free eviction
+(`locking := false`) this schedule — reader of `a` acquires, misses, reads `a = 01`; the transaction's commit
+lands (`a = 02`) and evicts `a` (a no-op); the reader adds `01` and returns — ends quiescent with the parent cache
+holding `a = 01` while the backend holds `a = 02`. With the lock (`locking := true`) the same schedule leaves the
+commit blocked at the eviction until the reader has released. -/
+theorem cache_commit_lockfree_cex :
+    (fun (s : CSys) (sched : List MStep) =>
+      (∃ m, MWin.start s 0 false = some m ∧ (m.run (fun _ => 0) sched).quiescent = true ∧
+         (m.run (fun _ => 0) sched).w.sys.lru.lookup "a" = some (some "01") ∧
+         sget (m.run (fun _ => 0) sched).w.sys.inner.parent "a" = some "02") ∧
+      (∃ m, MWin.start s 0 true = some m ∧ (m.run (fun _ => 0) sched).quiescent = false ∧
+         (m.run (fun _ => 0) sched).lock = .free ∧ (m.run (fun _ => 0) sched).w.phase = .invalidating ["a"]))
+    ((CSys.init [("a", "01")]).run [.begin 0 true, .op 0 (.put "a" "02")])
+    [.spawn "a", .reader 0, .reader 0, .reader 0, .commit, .commit, .commit, .commit, .commit, .reader 0, .reader 0] := by
+  refine ⟨⟨_, rfl, ?_⟩, ⟨_, rfl, ?_⟩⟩ <;> decide
 
 end Cache
 
